@@ -186,6 +186,20 @@ def core_det(tier):
             g = {"lb": [-1.0, -1.0, -1.0], "ub": [2.0, 2.0, 2.0], "plb": [-0.5, -0.5, -0.5], "pub": [1.3, 1.3, 1.3],
                  "x0": [0.9, -0.6, 1.1]}
             add(3, g, {"family": "facevalley", "c": 1.6}, {"max_fun_evals": 170}, tags=["facevalley", "outside"])
+        # a user-supplied annealing schedule for the search acquisition function
+        add(2, S.box_geom(2, x0=[3.0, -2.0]), _quad(2, r), {"_search_acq_schedule": "asym", "max_fun_evals": 60}, tags=["acq_schedule"])
+        add(3, S.box_geom(3, x0=[3.0, -2.0, 1.0]), _quad(3, r), {"_search_acq_schedule": "asym", "max_fun_evals": 70}, tags=["acq_schedule"])
+        # the valid seed 0 (a falsy value)
+        add(2, S.box_geom(2, x0=None), _quad(2, r), {"max_fun_evals": 40}, tags=["seed0", "nox0"])
+        out[-1]["seed"] = 0
+        # a cache smaller than the initial design with a non-identity transform, warm start at the minimiser: the
+        # first incumbent is logged before the cache grows and is never improved
+        add(3, {"lb": [-2, -1, -3], "ub": [6, 9, 5], "plb": [-1, 0, -2], "pub": [4, 6, 3], "x0": [2.0, 3.0, 1.0]},
+            {"family": "quad", "min": [2.0, 3.0, 1.0], "eig": [1.0, 2.0, 3.0], "rot_seed": 1},
+            {"cache_size": 3, "max_fun_evals": 40}, tags=["smallcache", "warmstart"])
+        add(2, {"lb": [1e-2, 1e-2], "ub": [1e2, 1e2], "plb": [1e-1, 1e-1], "pub": [1e1, 1e1], "x0": [3.0, 0.5]},
+            {"family": "logquad", "min": [3.0, 0.5]}, {"cache_size": 2, "fun_eval_start": 6, "max_fun_evals": 30},
+            tags=["smallcache", "warmstart", "log"])
         # deterministic target with an explicit base noise magnitude (documented option, used for GP regularisation)
         add(2, S.box_geom(2, x0=[3.0, -2.0]), _quad(2, r), {"noise_size": 1e-2, "max_fun_evals": 70}, tags=["det_noise_size"])
         add(1, S.box_geom(1, x0=[-3.0]), _quad(1, r), {"noise_size": 1e-3, "max_fun_evals": 50}, tags=["det_noise_size"])
@@ -258,6 +272,14 @@ def core_noisy(tier):
                 {"max_fun_evals": b, "noise_final_samples": 10}, tags=["auto", "budget", "reserve_clamped"])
         add(2, S.box_geom(2, x0=[2.0, 2.0]), _quad(2, r, cond=5.0), {"mode": "specified", "sigma": 1.0, "sd_kind": "hetero"},
             {"max_fun_evals": 37, "noise_final_samples": 10}, tags=["specified", "budget", "reserve_clamped"])
+        # noisy runs that stop on the mesh tolerance (the returned point may be an earlier iterate)
+        for j in range(2):
+            add(2, S.box_geom(2, x0=[2.0, 2.0]), _quad(2, r, cond=3.0), {"mode": "declared", "sigma": 0.3},
+                {"tol_mesh": [0.02, 0.05][j], "noise_final_samples": 2, "max_fun_evals": 200}, tags=["declared", "tolmesh"])
+        # exactly one final sample, small noise: incumbent roll-backs followed by the final selection
+        for j in range(10 if tier == "quick" else 16):
+            add(2, S.box_geom(2, x0=[2.0, -2.0]), _quad(2, r, cond=3.0), {"mode": "declared", "sigma": 0.1},
+                {"noise_final_samples": 1, "max_fun_evals": 80}, tags=["declared", "one_final_sample"])
         # specified noise where a re-observed point comes out markedly lower, so that merged records become the
         # incumbent / recorded iterates (complete polls re-visit the point opposite to a successful move)
         add(2, S.box_geom(2, -3, 3, -2, 2, x0=[1.0, 1.0]), _quad(2, r, mn=[6.0, 5.0], cond=4.0),
@@ -319,6 +341,19 @@ def cons_panel(tier):
         add(2, box, _quad(2, r, mn=[2.5, -2.0]), {"family": "ball", "c": [0.0, 0.0], "r": 1.5, "float": True}, tags=["ball", "floatcons"])
         add(2, S.box_geom(2, -4, 4, -2, 2, x0=[0.0, 0.0]), _quad(2, r, mn=[3.0, 0.0]),
             {"family": "halfspace", "w": [1.0, 0.0], "b": 1.0, "float": True}, options={"max_fun_evals": 90}, tags=["halfspace", "floatcons", "onmesh_boundary"])
+        # budgets that cut the initial design short
+        gtb = {"lb": [-4, -4], "ub": [4, 4], "plb": [-3, -3], "pub": [3, 3], "x0": [-1.0, -0.5]}
+        for bud, nz in ((3, None), (4, None), (5, None), (3, None), (4, None), (12, {"mode": "declared", "sigma": 0.5}),
+                        (18, {"mode": "declared", "sigma": 0.5})):
+            add(2, gtb, _quad(2, r, mn=[3.0, 3.0]), {"family": "halfspace", "w": [1.0, 1.0], "b": 0.5}, noise=nz,
+                options={"max_fun_evals": bud, "noise_final_samples": 0 if nz else 10}, tags=["halfspace", "tiny_budget"])
+        for bud in (3, 4, 5):
+            add(2, gtb, _quad(2, r, mn=[2.5, -2.0]), {"family": "ball", "c": [-1.0, -0.5], "r": 1.5},
+                options={"max_fun_evals": bud}, tags=["ball", "tiny_budget"])
+        # a design larger than what is left of the budget, with a constraint that removes only a small part of it
+        for bud in (5, 6, 7, 6, 7):
+            add(2, gtb, _quad(2, r, mn=[3.0, 3.0]), {"family": "halfspace", "w": [1.0, 1.0], "b": 2.0},
+                options={"max_fun_evals": bud, "fun_eval_start": 8}, tags=["halfspace", "tiny_budget", "big_design"])
         # option-specific branches of the poll step: poll points forced onto the search mesh
         add(2, box, _quad(2, r, mn=[2.5, -2.0]), {"family": "ball", "c": [0.0, 0.0], "r": 1.5},
             options={"force_poll_mesh": True, "max_fun_evals": 80}, tags=["ball", "force_poll_mesh"])
@@ -497,7 +532,7 @@ def optvar_panel(tier):
         o["force_poll_mesh"] = r.random() < 0.3
         o["max_fun_evals"] = r.choice([60, 90, 130])
         if j % 5 == 4:
-            o["poll_mesh_multiplier"] = r.choice([4.0, 3.0])
+            o["poll_mesh_multiplier"] = [1.5, 4.0, 2.5, 3.0][(j // 5) % 4]
         noisy = (j % 3 == 2)
         noise = None
         if noisy:
